@@ -25,7 +25,9 @@ StatOk(r) ==
                                         /\ \A x \in 1..4 : st.visits_pos[x] = Visits(t, x) /\ st.visits_neg[x] = Visits(t, 0 - x)
        [] r.args.test = "LinearComplexityScatter" ->
             /\ Len(st.sizes) = r.args.par
-            /\ \A i \in 1..Len(st.sizes) : st.sizes[i] = ScatterSize(Len(t), r.args.par, i - 1)
+            \* with the optional max_block_size only the first step * max_block_size bits are used
+            /\ LET eff == IF "maxblock" \in DOMAIN r.args /\ r.args.par * r.args.maxblock < Len(t) THEN r.args.par * r.args.maxblock ELSE Len(t)
+               IN \A i \in 1..Len(st.sizes) : st.sizes[i] = ScatterSize(eff, r.args.par, i - 1)
        [] OTHER -> TRUE
 \* the same call repeated in a fresh process after other calls of the same process must give the same p-values
 VPure(r) == IF r.raised # "none" THEN "Total"
